@@ -1,5 +1,9 @@
 """C11 implementation runner: the same observations as C02 (one likelihood
-function per case), for the original and for every transformed input."""
+function per case) for the original and for every harness-transformed input,
+plus `api` cases in which the transformation itself is done by the real
+cogent3 methods inside this interpreter (tree.rooted_at / rooted_with_tip,
+lf.get_annotated_tree, tree.reassign_names + aln.rename_seqs, scoped rules with
+tip_names / outgroup_name applied through set_param_rule on every rooting)."""
 import importlib.util
 import os
 
@@ -8,7 +12,133 @@ _c02 = importlib.util.module_from_spec(_spec)
 _spec.loader.exec_module(_c02)
 
 
+def _splits(tree):
+    """edge name -> the unrooted edge it is: the tip set on the side that does not contain the smallest tip name"""
+    alltips = sorted(tree.get_tip_names())
+    out = {}
+    for n in tree.get_edge_vector(include_root=False):
+        s = set(n.get_tip_names())
+        if alltips[0] in s:
+            s = set(alltips) - s
+        out[n.name] = sorted(s)
+    return out
+
+
+def _reroot(tree, rooting):
+    if rooting is None:
+        return tree
+    how, target = rooting
+    return tree.rooted_at(target) if how == "rooted_at" else tree.rooted_with_tip(target)
+
+
+def _one(case, tree_obj=None, aln_obj=None):
+    lf, tree, aln, params = _c02.build_lf(case, tree_obj, aln_obj)
+    lf._verif_aln = aln
+    return lf, params
+
+
+def api_scoped_reroot(case):
+    """the same tip_names / outgroup_name scoped rule applied through the API on the original tree and on trees
+    re-rooted with the real tree methods"""
+    from cogent3 import make_tree
+
+    base = make_tree(case["tree"])
+    res = []
+    for rooting in [None] + list(case["api"]["rootings"]):
+        try:
+            t = _reroot(base, rooting)
+            lf, params = _one(case, tree_obj=t)
+            sp = _splits(lf.tree)
+            p = sorted(params)[0] if params else None
+            spec = params.get(p, {}) if p else {}
+            sel = []
+            if spec.get("scoped"):
+                v = spec["scoped"]["value"]
+                sel = sorted(sp[e] for e in sp if abs(float(lf.get_param_value(p, edge=e)) - v) < 1e-12)
+            lengths = sorted([sp[e], float(lf.get_param_value("length", edge=e))] for e in sp)
+            res.append({"rooting": rooting, "lnL": float(lf.get_log_likelihood()), "selected": sel, "param": p, "lengths": lengths,
+                        "newick": t.get_newick(with_distances=True)})
+        except Exception as e:  # noqa: BLE001
+            res.append({"rooting": rooting, "raised": type(e).__name__ + ": " + str(e)[:160]})
+    return {"results": res}
+
+
+def api_annotated_roundtrip(case):
+    """lf -> get_annotated_tree() -> rooted_at / rooted_with_tip -> make_likelihood_function(that tree): the tree
+    carries the model parameters (non-default kappa / omega, possibly different on some edges) and the lengths"""
+    lf, params = _one(case)
+    out = {"lnL": float(lf.get_log_likelihood()), "results": []}
+    at = lf.get_annotated_tree()
+    sm = lf.model
+    aln = lf._verif_aln
+    mprobs = None
+    if "mprobs" in lf.get_param_names() or "psmprobs" in lf.get_param_names():
+        mprobs = lf.get_motif_probs()
+        mprobs = mprobs.to_dict() if hasattr(mprobs, "to_dict") else dict(mprobs)
+    for rooting in [None] + list(case["api"]["rootings"]):
+        try:
+            t = _reroot(at, rooting)
+            lf1 = sm.make_likelihood_function(t)
+            lf1.set_alignment(aln)
+            if mprobs is not None:
+                lf1.set_motif_probs(mprobs)
+            carried = {}
+            for p in params:
+                try:
+                    carried[p] = sorted({round(float(lf1.get_param_value(p, edge=n.name)), 9) for n in lf1.tree.get_edge_vector(include_root=False)})
+                except Exception:  # noqa: BLE001
+                    carried[p] = None
+            out["results"].append({"rooting": rooting, "lnL": float(lf1.get_log_likelihood()), "values": carried})
+        except Exception as e:  # noqa: BLE001
+            out["results"].append({"rooting": rooting, "raised": type(e).__name__ + ": " + str(e)[:160]})
+    out["params"] = params
+    return out
+
+
+def api_relabel_perm(case):
+    """tree.reassign_names(mapping) + aln.rename_seqs(mapping) with a mapping that permutes existing labels"""
+    from cogent3 import make_aligned_seqs, make_tree
+
+    lf, params = _one(case)
+    out = {"lnL": float(lf.get_log_likelihood())}
+    mapping = dict(case["api"]["mapping"])
+    t = make_tree(case["tree"])
+    t.reassign_names(mapping)
+    aln = make_aligned_seqs({n: s for n, s in case["aln"]}, moltype=case.get("moltype", "dna"))
+    aln2 = aln.rename_seqs(lambda n: mapping.get(n, n))
+    c2 = dict(case)
+    if c2.get("scoped") and "edges" in c2["scoped"]:
+        c2["scoped"] = {"edges": [mapping.get(e, e) for e in c2["scoped"]["edges"]]}
+    lf2, _ = _one(c2, tree_obj=t, aln_obj=aln2)
+    out["lnL_relabelled"] = float(lf2.get_log_likelihood())
+    out["tips_after"] = sorted(t.get_tip_names())
+    out["newick_after"] = t.get_newick()
+    return out
+
+
+def api_inplace_reorder(case):
+    """the caller's tree object has the children of some nodes reordered IN PLACE after make_likelihood_function
+    and before set_alignment"""
+    lf, params = _one(case)
+    out = {"lnL": float(lf.get_log_likelihood())}
+    which = set(case["api"]["nodes"])
+
+    def mutate(tree):
+        for n in tree.get_edge_vector(include_root=True):
+            if n.name in which and len(n.children) > 1:
+                n.children.reverse()
+
+    lf2, tree2, aln2, _ = _c02.build_lf(case, before_alignment=mutate)
+    out["lnL_reordered"] = float(lf2.get_log_likelihood())
+    return out
+
+
+API = {"inplace_reorder": api_inplace_reorder, "scoped_reroot": api_scoped_reroot, "annotated_roundtrip": api_annotated_roundtrip, "relabel_perm": api_relabel_perm}
+
+
 def run_case(case):
+    if case.get("api"):
+        return API[case["api"]["op"]](case)
     return _c02.run_case(case)
 
 
